@@ -356,6 +356,68 @@ theorem cloneL_no_sharing {E : Env} (hI : Idem E) (hC : CopyStable E) (oS oD m :
         · rcases hh1 i hia with h | h <;> omega
         · exact i4 c hc i hi a ha hia
 
+/-! ## Transient traits under `clone_traits` -/
+
+theorem assignSlot_decl {E : Env} {o n : Nat} {sl sl' : Slot} {v : CVal} {n' : Nat}
+    (h : assignSlot E o n sl v = .ok (sl', n')) : sl'.decl = sl.decl := by
+  unfold assignSlot at h
+  cases hk : sl.decl.kind <;> simp only [hk] at h
+  · -- value
+    cases hv : validate E o sl.decl.shape n v with
+    | error e => simp [hv] at h
+    | ok r => obtain ⟨a, b⟩ := r; simp [hv] at h; rw [← h.1]
+  · -- readonly
+    cases hv : validate E o sl.decl.shape n v with
+    | error e => split at h <;> simp [hv] at h
+    | ok r =>
+      obtain ⟨a, b⟩ := r
+      split at h
+      · simp [hv] at h; rw [← h.1]
+      · simp [hv] at h; rw [← h.1]
+      · cases h
+  · -- event
+    cases hv : validate E o sl.decl.shape n v with
+    | error e => simp [hv] at h
+    | ok r => obtain ⟨a, b⟩ := r; simp [hv] at h; rw [← h.1]
+  · -- property
+    cases hv : validate E o sl.decl.shape n v with
+    | error e => simp [hv] at h
+    | ok r => obtain ⟨a, b⟩ := r; simp [hv] at h; rw [← h.1]
+
+theorem cloneSlot_decl (E : Env) (oS oD : Nat) (arg : Option CopyMode) (all : Bool) (n : Nat) (src : Slot) :
+    (cloneSlot E oS oD arg all n src).1.decl = src.decl := by
+  unfold cloneSlot
+  by_cases hc : (src.decl.copyable || all && src.decl.kind != TKind.event) = true
+  · simp only [hc, ↓reduceIte]
+    cases h1 : copyValue E (effMode src.decl.copy arg) (readSlot E oS n src).2.2 (readSlot E oS n src).1 with
+    | error e => rfl
+    | ok r =>
+      obtain ⟨v, n1⟩ := r
+      simp only
+      cases h2 : assignSlot E oD n1 ⟨src.decl, none⟩ v with
+      | error e => rfl
+      | ok r2 =>
+        obtain ⟨dst', n2⟩ := r2
+        exact assignSlot_decl (sl := ⟨src.decl, none⟩) h2
+  · simp only [hc]
+    rfl
+
+theorem cloneSlot_transient (E : Env) (oS oD : Nat) (arg : Option CopyMode) (n : Nat) (src : Slot)
+    (ht : src.decl.transient = true) : (cloneSlot E oS oD arg false n src).1.val = none := by
+  simp [cloneSlot, Decl.copyable, ht]
+
+theorem cloneL_transient (E : Env) (oS oD : Nat) (arg : Option CopyMode) :
+    ∀ (slots : List Slot) (n : Nat), ∀ c ∈ (cloneL E oS oD arg false n slots).1,
+      c.decl.transient = true → c.val = none
+  | [], n => by simp [cloneL]
+  | sl :: sls, n => by
+    intro c hc ht
+    simp only [cloneL, List.mem_cons] at hc
+    rcases hc with rfl | hc
+    · rw [cloneSlot_decl] at ht
+      exact cloneSlot_transient E oS oD arg n sl ht
+    · exact cloneL_transient E oS oD arg sls _ c hc ht
+
 /-! ## A concrete environment for witnesses and examples -/
 
 /-- Leaf validators of the witnesses: tag 0 accepts integers only. -/
